@@ -92,6 +92,14 @@ Definition duplicate_subquery_column (raw : node) : bool :=
     negb (nodup_str labels))
     (named_subqueries raw).
 
+(** ... also when the duplicate comes out of a star inside the CTE (SELECT x AS id, * FROM t):
+    decided on the columns sqlc infers for the statement's CTEs *)
+Definition duplicate_cte_column (e : env) (raw : node) : bool :=
+  match build_query_catalog (S (node_size raw)) e (kid "Stmt" raw) with
+  | Ok qc => existsb (fun p => negb (nodup_str (filter (fun l => negb (String.eqb l "")) (map qc_name (qt_cols (snd p)))))) qc
+  | _ => false
+  end.
+
 Definition has_star0 (raw : node) : bool :=
   existsb (fun t => let v := kid "Val" t in is_kind "ColumnRef" v && has_star_ref v) (search (is_kind "ResTarget") raw).
 
@@ -103,7 +111,7 @@ Definition c02_class_e (e : env) (raw : node) : N :=
                   (search (is_kind "UpdateStmt") raw) then 2
   else if unnamed_cte_column raw && has_star0 raw then 5
   else if qualified_cast_column raw && has_star0 raw then 6
-  else if duplicate_subquery_column raw && has_star0 raw then 7
+  else if (duplicate_subquery_column raw || duplicate_cte_column e raw) && has_star0 raw then 7
   else 0.
 
 Definition c02_class (raw : node) : N :=
